@@ -9,8 +9,11 @@
 (*                                                                         *)
 (* Trace := [shape, ev : Seq(Event)]       three objects "x", "y", "z";    *)
 (*          an object is live once it was the destination of frombits /    *)
-(*          clone / deepcopy.                                              *)
-(* Event := an action record of BitStruct.tla (op in frombits, assign,     *)
+(*          default / clone / deepcopy.  The shape is the one the harness  *)
+(*          DECLARED; the class is whatever pymtl3 returned for that       *)
+(*          declaration (possibly after other declarations under the same  *)
+(*          class name, see BitStructDecl.tla).                            *)
+(* Event := an action record of BitStruct.tla (op in frombits, default,    *)
 (*          assignbits, nbassign, nbassignbits, flip, clone, deepcopy,     *)
 (*          mutate) plus  post : [live object name -> value], the values   *)
 (*          of ALL live objects read field by field after the call         *)
@@ -45,9 +48,9 @@ Init == /\ tid \in 1 .. Len(Traces)
 Fail(c)  == err' = c /\ UNCHANGED <<tid, l, fin, st, live>>
 Skip     == l' = l + 1 /\ UNCHANGED <<tid, err, fin, st, live>>
 
-StateOps == {"frombits", "assign", "assignbits", "nbassign", "nbassignbits", "flip", "clone",
+StateOps == {"frombits", "default", "assign", "assignbits", "nbassign", "nbassignbits", "flip", "clone",
              "deepcopy", "mutate"}
-Creating == {"frombits", "clone", "deepcopy"}
+Creating == {"frombits", "default", "clone", "deepcopy"}
 HasSrc   == {"assign", "nbassign", "clone", "deepcopy"}
 
 ActEv ==
